@@ -858,6 +858,148 @@ theorem old_routine_forgets_new_removal :
     (run1Old {} [.set 1, .remove, .timer, .set 2, .remove, .reap 0]).armed = none ∧
     (run1 {} [.set 1, .remove, .timer, .set 2, .remove, .reap 0]).armed = some 1 := by decide
 
+/-! ### stale removal routines and re-scheduled removals (seeded change C11r4-B) -/
+
+/-- generations are handed out once: whatever has fired and whatever is scheduled is older than the next one -/
+structure Fresh (s : St1) : Prop where
+  fir : ∀ g ∈ s.firing, g < s.gen
+  arm : ∀ a, s.armed = some a → a < s.gen
+
+theorem fresh_init : Fresh {} := ⟨by simp, by simp⟩
+
+theorem fresh_step (s : St1) (o : Op1) (h : Fresh s) : Fresh (step1 s o) := by
+  obtain ⟨hf, ha⟩ := h
+  cases o with
+  | register => simp only [step1]; split <;> exact ⟨hf, ha⟩
+  | unregister => simp only [step1]; split <;> exact ⟨hf, ha⟩
+  | refresh => exact ⟨hf, by simp [step1]⟩
+  | set c => exact ⟨hf, by simp [step1]⟩
+  | remove =>
+    simp only [step1]
+    split
+    · exact ⟨hf, ha⟩
+    · split
+      · exact ⟨hf, ha⟩
+      · refine ⟨fun g hg => ?_, fun a h => ?_⟩
+        · have := hf g hg; simp; omega
+        · simp at h; subst h; simp
+  | timer =>
+    simp only [step1]
+    split
+    · rename_i g hg
+      split
+      · exact ⟨hf, ha⟩
+      · refine ⟨fun x hx => ?_, ha⟩
+        simp at hx
+        rcases hx with hx | hx
+        · exact hf x hx
+        · subst hx; exact ha _ hg
+    · exact ⟨hf, ha⟩
+  | reap g =>
+    simp only [step1]
+    split
+    · split
+      · refine ⟨fun x hx => ?_, by simp⟩
+        simp at hx; exact hf x hx.1
+      · refine ⟨fun x hx => ?_, ha⟩
+        simp at hx; exact hf x hx.1
+    · exact ⟨hf, ha⟩
+  | close => exact ⟨hf, by simp [step1]⟩
+
+theorem fresh_run (ops : List Op1) (s : St1) (h : Fresh s) : Fresh (run1 s ops) := by
+  induction ops generalizing s with
+  | nil => exact h
+  | cons o os ih => exact ih _ (fresh_step s o h)
+
+/-- **a stale routine never completes a removal that is not its own**: in every reachable state of the
+store, when a removal is newly scheduled (whatever was scheduled before has been cancelled), then
+— as long as the timer of THIS removal has not fired — no removal routine that gets the lock (all the
+stale ones of earlier, cancelled removals whose timers had fired), no refresh, registration or `Close`
+releases the tree: it stays for the grace period of the latest removal. -/
+theorem rearmed_removal_waits_for_own_timer (pre ops : List Op1) (c : Nat)
+    (hs : (run1 {} pre).slot = .present c) (hn : (run1 {} pre).armed = none)
+    (hc : (run1 {} pre).closed = false)
+    (hq : ∀ o ∈ ops, o ≠ .timer ∧ (∀ c', o ≠ .set c')) :
+    (run1 (step1 (run1 {} pre) .remove) ops).slot = .present c := by
+  have hF := fresh_run pre {} fresh_init
+  generalize run1 {} pre = s at *
+  have key : ∀ (ops : List Op1) (t : St1), (∀ o ∈ ops, o ≠ .timer ∧ (∀ c', o ≠ .set c')) →
+      t.slot = .present c → (∀ g ∈ t.firing, t.armed ≠ some g) → Fresh t →
+      (run1 t ops).slot = .present c := by
+    intro ops
+    induction ops with
+    | nil => intro t _ h _ _; exact h
+    | cons o os ih =>
+      intro t hq h1 h2 h3
+      have hq' : ∀ o ∈ os, o ≠ .timer ∧ (∀ c', o ≠ .set c') := fun o ho => hq o (List.mem_cons_of_mem _ ho)
+      have ho := hq o (List.mem_cons_self ..)
+      simp only [run1]
+      refine ih _ hq' ?_ ?_ (fresh_step t o h3)
+      · cases o with
+        | timer => exact absurd rfl ho.1
+        | set c' => exact absurd rfl (ho.2 c')
+        | register => simp [step1, h1]
+        | unregister => simp [step1, h1]
+        | refresh => simp [step1, h1]
+        | close => simp [step1, h1]
+        | remove => simp only [step1]; split; exact h1; split <;> simp [h1]
+        | reap g =>
+          simp only [step1]
+          split
+          · rename_i hg; simp [h2 g hg, h1]
+          · exact h1
+      · cases o with
+        | timer => exact absurd rfl ho.1
+        | set c' => exact absurd rfl (ho.2 c')
+        | register => simp only [step1]; split <;> exact h2
+        | unregister => simp only [step1]; split <;> exact h2
+        | refresh => simp [step1]
+        | close => simp [step1]
+        | remove =>
+          simp only [step1]
+          split
+          · exact h2
+          · split
+            · exact h2
+            · intro g hg; simp; have := h3.fir g hg; omega
+        | reap g =>
+          simp only [step1]
+          split
+          · rename_i hg
+            simp [h2 g hg]
+            intro x hx _; exact h2 x hx
+          · exact h2
+  apply key ops _ hq
+  · simp [step1, hc, hn, hs]
+  · simp only [step1, hc, hn]
+    intro g hg; simp; have := hF.fir g hg; omega
+  · exact fresh_step s .remove hF
+
+/-- a removal completes only through the routine whose own timer fired while it was the scheduled one -/
+theorem removal_only_by_own_routine (s : St1) (g c : Nat) (hp : s.slot = .present c)
+    (hd : (step1 s (.reap g)).slot ≠ .present c) : s.armed = some g ∧ g ∈ s.firing := by
+  simp only [step1] at hd
+  by_cases hg : g ∈ s.firing
+  · by_cases ha : s.armed = some g
+    · exact ⟨ha, hg⟩
+    · simp [hg, ha, hp] at hd
+  · simp [hg, hp] at hd
+
+/-- **the variant that only asks whether some removal is registered releases the tree early**
+(seeded change C11r4-B): removal 0 is scheduled, its timer fires, it is cancelled (`getAndRefresh`) and
+removal 1 scheduled while routine 0 waits for the lock; routine 0 then deletes the tree although the
+timer of removal 1 has not fired.  The code as it is keeps the tree and removal 1. -/
+theorem planned_variant_releases_early :
+    (run1Planned {} [.set 1, .remove, .timer, .refresh, .remove, .reap 0]).slot = .absent ∧
+    (run1 {} [.set 1, .remove, .timer, .refresh, .remove, .reap 0]).slot = .present 1 ∧
+    (run1 {} [.set 1, .remove, .timer, .refresh, .remove, .reap 0]).armed = some 1 ∧
+    (run1 {} [.set 1, .remove, .timer, .refresh, .remove, .reap 0]).firing = [] := by decide
+
+example : (run1 {} [.set 1, .remove, .timer, .refresh]).slot = .present 1 ∧
+    (run1 {} [.set 1, .remove, .timer, .refresh]).armed = none ∧
+    (run1 {} [.set 1, .remove, .timer, .refresh]).firing = [0] := by decide
+
+
 /-- non-vacuity of `independent`/`fresh_tree_survives_store`: three ids interleaved -/
 example : ((run {} [.on 0 (.set 1), .on 1 (.set 1), .on 0 .remove, .on 2 .register, .on 0 .timer,
       .on 1 .remove, .on 0 (.set 2), .on 0 (.reap 0), .on 1 .timer, .on 1 (.reap 0), .close]).at_ 0).slot = .present 2 ∧
